@@ -462,4 +462,10 @@ def r2_12(ctx):
     borrow(ctx, r5_2, "R5.2", "R2.12", " [full justification re-assembles a line with Text.join: each piece's base style must stay below the piece's own spans, and spans keep their offsets]")
 
 
-RULES = [r2_1, r2_2, r2_3, r2_4, r2_5, r2_6, r2_7, r2_8, r2_10, r2_9, r2_11, r2_12]
+def r2_13(ctx):
+    from .common import memo_rule
+    memo_rule(ctx, "R2.13", ["_wrap", "containers", "cells"], 1)
+    ctx.rules_applied["R2.13"] += " [wrapping is a function of (text, width, fold, justify, overflow): a cache of break offsets or of justified lines whose key leaves one of them out replays the breaks of another mode - a long word folded or not depending on what was wrapped before]"
+
+
+RULES = [r2_1, r2_2, r2_3, r2_4, r2_5, r2_6, r2_7, r2_8, r2_10, r2_9, r2_11, r2_12, r2_13]
